@@ -115,7 +115,8 @@ Run(ops, env, pc, st) ==
 Eval(ops, env) == Run(ops, env, 1, <<>>)
 
 \* does an observation (ok / err / panic) agree with what the specification denotes?
-Agrees(exp, obs) == /\ obs.k # "panic"
+\* ("unstable": evaluating the same expression with the same operands twice gave two different results)
+Agrees(exp, obs) == /\ obs.k \notin {"panic", "unstable"}
                     /\ \/ exp.k = "any"
                        \/ exp.k = "err" /\ obs.k = "err"
                        \/ exp.k = "ok" /\ obs.k = "ok" /\ ValEq(exp.v, obs.v)
